@@ -2,6 +2,7 @@ SPECIFICATION Spec
 CONSTANTS Size = "q"  Variant = "nonstrict"
 INVARIANT TypeOK
 INVARIANT MaskIsInclusion
+INVARIANT RadiiByRule
 INVARIANT BoundaryExcluded
 INVARIANT SymmetricMask
 INVARIANT Extruded
